@@ -158,7 +158,7 @@ Section Frame.
     time_units out = c_time_units c /\
     map node_static (nodes out) = map node_static (nodes tb) /\
     Permutation (edges out) (edges tb) /\
-    Permutation (migs out) (migs tb) /\
+    migs out = migs tb /\
     Permutation (map mut_ident (muts out))
                 (map (fun ru => (m_site (fst ru), snd ru, m_state (fst ru))) (combine (muts tb) (r_mut_node res))) /\
     (provs out = provs tb \/ exists r, provs out = (provs tb ++ [r])%list).
@@ -180,7 +180,6 @@ Section Frame.
     pose proof (HC _ _ _ _ E3) as LT.
     repeat split; try reflexivity.
     - apply (map3_proj node_static node_static); [reflexivity | lia | lia].
-    - apply isort_perm.
     - apply isort_perm.
     - etransitivity; [apply core_ident_perm, HF|].
       etransitivity; [apply Permutation_map, isort_perm|].
@@ -236,21 +235,20 @@ Definition k9_out :=
     (list (string * Z)) zdump (fun es fx t => constrain_list FNum 1e-8%float fx 0 es t)
     (fun _ _ m => m) (fun _ => true) k9_config k9_tables k9_result.
 
-(** input rows: mutation (node 0, state 7) then (node 2, state 8); migrations tagged 0 then 1.
-    output rows: both tables come back in the other order *)
+(** input rows: mutation (node 0, state 7) then (node 2, state 8); output rows: the other order.
+    The two equal-time migrations (tagged 0, 1; tskit's own order would be 1, 0) come back as given. *)
 Lemma k9_witness :
   map (fun m : mut_row FNum Z Z => (m_node m, m_state m)) (muts k9_tables) = [(0, 7%Z); (2, 8%Z)] /\
-  map g_md (migs k9_tables) = [[0%Z]; [1%Z]] /\
   match k9_out with
   | Modified out _ =>
       map (fun m : mut_row FNum Z Z => (m_node m, m_state m)) (muts out) = [(2, 8%Z); (0, 7%Z)] /\
-      map g_md (migs out) = [[1%Z]; [0%Z]]
+      map g_md (migs out) = [[0%Z]; [1%Z]]
   | Failed _ => False
   end.
 Proof. vm_compute. repeat split. Qed.
 
 Lemma k9_returns : exists out log, k9_out = Modified out log.
 Proof.
-  pose proof k9_witness as (_ & _ & W).
+  pose proof k9_witness as (_ & W).
   destruct k9_out as [out log|f]; [eauto | contradiction].
 Qed.
